@@ -85,7 +85,8 @@ func findLoops(fn *ssa.Function) []*Loop {
 				continue
 			}
 			for _, s := range b.Succs {
-				if !l.Blocks[s] {
+				if !l.Blocks[s] && !abortsWithError(s) {
+					// leaving the loop from its body other than by returning an error: the index range is cut short
 					l.ExitsOK = false
 				}
 			}
@@ -167,4 +168,27 @@ func (r IterRange) CoversZeroTo() (*Term, bool) {
 		return AffAdd(r.Bound, ConstInt(1), 1), true
 	}
 	return nil, false
+}
+
+// abortsWithError: control reaching b returns a non-nil error without further branching (the loop's enclosing function
+// gives up; on the success path the loop therefore ran to completion).
+func abortsWithError(b *ssa.BasicBlock) bool {
+	seen := map[*ssa.BasicBlock]bool{}
+	for b != nil && !seen[b] {
+		seen[b] = true
+		if len(b.Instrs) == 0 {
+			return false
+		}
+		switch x := b.Instrs[len(b.Instrs)-1].(type) {
+		case *ssa.Return:
+			return isErrorReturn(x)
+		case *ssa.Jump:
+			b = b.Succs[0]
+		case *ssa.Panic:
+			return true
+		default:
+			return false
+		}
+	}
+	return false
 }
